@@ -274,9 +274,11 @@ def replay_record(bname, model, meta):
 
 
 def replay_act(bname, model, meta):
-    """F13 on the real code: two buses off, a dependent group without any device on them -> Group.set(idx=[None, None])."""
+    """F13 on the real code: two buses off, a dependent group without any device on them -> Group.set(idx=[None, None]).  For any
+    other obligation (or when no verification condition could be generated): one bus switched off at a time on pjm5bus, whose device
+    indices start at 0 -- exactly the devices attached to that bus must go out of service, and the bus must be reported isolated."""
     if 'no-None' not in bname:
-        return None
+        return replay_bus_off()
     import logging
     import andes
     logging.getLogger('andes').setLevel(logging.CRITICAL)
@@ -291,6 +293,37 @@ def replay_act(bname, model, meta):
     return {'confirmed': err is not None and 'KeyError' in err, 'exception': err,
             'native_cmd': 'pjm5bus (setup=False): Bus 0 and 3 off; System.setup() -> ConnMan.act -> KeyError'}
 
+
+
+def replay_bus_off():
+    import logging
+    import andes
+    logging.getLogger('andes').setLevel(logging.CRITICAL)
+    case = andes.get_case('5bus/pjm5bus.xlsx')
+    ref = andes.load(case, default_config=True, no_output=True)
+    fields = {'Line': ('bus1', 'bus2'), 'PQ': ('bus',), 'PV': ('bus',), 'Slack': ('bus',)}
+    for b in ref.Bus.idx.v:
+        ss = andes.load(case, default_config=True, no_output=True)
+        ss.Bus.set('u', b, 'v', 0)
+        try:
+            ss.PFlow.run()
+        except Exception as e:      # noqa
+            return {'confirmed': True, 'inputs': {'case': 'pjm5bus', 'bus switched off': b}, 'observed': repr(e),
+                    'native_cmd': "Bus.set('u', bus, 'v', 0); PFlow.run()"}
+        for mname, flds in fields.items():
+            m, m0 = ss.__dict__[mname], ref.__dict__[mname]
+            for k in range(m.n):
+                attached = any(m.__dict__[f].v[k] == b for f in flds)
+                want = 0.0 if attached else float(m0.u.v[k])
+                if float(m.u.v[k]) != want:
+                    return {'confirmed': True, 'inputs': {'case': 'pjm5bus', 'bus switched off': b},
+                            'observed': '%s %r (attached to the bus: %r) has u = %r, expected %r' % (mname, m.idx.v[k], attached, float(m.u.v[k]), want),
+                            'native_cmd': "Bus.set('u', bus, 'v', 0); PFlow.run()"}
+        if [int(i) for i in ss.Bus.islanded_buses] != [ss.Bus.idx2uid(b)]:
+            return {'confirmed': True, 'inputs': {'case': 'pjm5bus', 'bus switched off': b},
+                    'observed': 'isolated buses reported %r, expected %r' % (list(ss.Bus.islanded_buses), [ss.Bus.idx2uid(b)]),
+                    'native_cmd': "Bus.set('u', bus, 'v', 0); PFlow.run()"}
+    return {'confirmed': False, 'tried': ref.Bus.n}
 
 
 def replay_g_islands(obligation, model, meta):
